@@ -75,7 +75,9 @@ def main():
         seed = 0
     from pyvc import runner
     import props
-    meta = props.PROPS[a.pid]
+    meta = props.PROPS.get(a.pid) or dict(level="proof", explanation="development run of an unclaimed property", _unclaimed=True)
+    if meta.get("_unclaimed"):
+        a.no_evidence = True
     t0 = time.time()
     try:
         s = runner.run_property(a.pid, tier=tier, seed=seed, jobs=a.jobs, only=a.only)
